@@ -10,9 +10,11 @@
    bytes of the wire w with error t" is `flat s = (firstn k w, t)`, for EVERY segmentation.
    A transport under a writer is `wtr_new (Some i) m term`: Write call number i accepts only the first
    m bytes (all but one at most when term = None: a short write without error) and reports term. *)
+From Coq Require Import String.   (* first, so that List.length etc. from Lib.Base take precedence *)
 From Verif Require Import Lib.Base Lib.Sx Lib.Err Lib.IO Model.ErrorsPkg Model.Faults.
 From Verif Require Import Proofs.ErrorsPkg Proofs.FaultsIO Proofs.Faults Proofs.FaultsFlv Proofs.FaultsWrite Proofs.FaultsBufw.
 From Verif Require Model.Flv Proofs.Flv.
+From Verif Require Gen.Gen_errors.
 From Verif Require Model.RtmpChunk Proofs.RtmpChunk Proofs.RtmpChunkRT Proofs.FaultsRtmpChunk.
 Open Scope N_scope.
 
@@ -53,6 +55,24 @@ Proof. exact (nest_nil_iff s ops). Qed.
 
 Theorem c08_errors_nil_op e o : apply_op e o = None <-> e = None.
 Proof. exact (apply_op_nil_iff e o). Qed.
+
+(* The model above is a transcription of this source (regenerated from /repo/errors/errors.go on
+   every run by tools/repo2coq/gen_faults.go: the whitespace-normalised bodies of the ten functions
+   and the separator literal of withMessage.Error).  When the source is edited this theorem stops
+   compiling and the check falls back to searching a failing input with the harness. *)
+Theorem c08_errors_source :
+  Gen_errors.errors_withMessage_sep = msg_sep /\
+  Gen_errors.errors_src_New = "{ return &fundamental{msg: message, stack: callers()} }"%string /\
+  Gen_errors.errors_src_Errorf = "{ return &fundamental{msg: fmt.Sprintf(format, args...), stack: callers()} }"%string /\
+  Gen_errors.errors_src_WithStack = "{ if err == nil { return nil } return &withStack{err, callers()} }"%string /\
+  Gen_errors.errors_src_Wrap = "{ if err == nil { return nil } err = &withMessage{cause: err, msg: message} return &withStack{err, callers()} }"%string /\
+  Gen_errors.errors_src_Wrapf = "{ if err == nil { return nil } err = &withMessage{cause: err, msg: fmt.Sprintf(format, args...)} return &withStack{err, callers()} }"%string /\
+  Gen_errors.errors_src_WithMessage = "{ if err == nil { return nil } return &withMessage{cause: err, msg: message} }"%string /\
+  Gen_errors.errors_src_withStack_Cause = "{ return w.error }"%string /\
+  Gen_errors.errors_src_withMessage_Cause = "{ return w.cause }"%string /\
+  Gen_errors.errors_src_withMessage_Error = "{ return w.msg + "": "" + w.cause.Error() }"%string /\
+  Gen_errors.errors_src_Cause = "{ type causer interface{ Cause() error } for err != nil { cause, ok := err.(causer) if !ok { break } err = cause.Cause() } return err }"%string.
+Proof. repeat split; reflexivity. Qed.
 
 (* non-vacuity: Wrapf(WithStack(Wrap(io.EOF, "read")), "chunk %d", 7) *)
 Example c08_errors_example :
@@ -285,6 +305,7 @@ Print Assumptions c08_errors_message.
 Print Assumptions c08_errors_message_any.
 Print Assumptions c08_errors_nil.
 Print Assumptions c08_errors_nil_op.
+Print Assumptions c08_errors_source.
 Print Assumptions c08_read_segs_concat.
 Print Assumptions c08_read_full_rule.
 Print Assumptions c08_flv_read.
